@@ -441,6 +441,9 @@ func checkC18(p *Prog, r *Report) {
 	ruleMergeOrder(p, r)
 	ruleEveryLineKept(p, r)
 	ruleStaleIndex(p, r, map[string]bool{"cisco": true, "nsx": true, "panos": true, "linux": true})
+	// parser state of the raw-file markers ([APPEND] applies from the marker to the end of its table /
+	// of the file): replaced exactly under the audited conditions
+	ruleStickyState(p, r, "C18", map[string]bool{"cisco": true, "linux": true}, 6)
 	ruleLoadOrder(p, r)
 	r.Trusted = []string{"go/ssa, call graph"}
 	r.NotDec = "positions of prepend/append in merged lists beyond the boundary guard; relative order inside each part"
